@@ -11,6 +11,7 @@ import (
 	"go/types"
 	"path/filepath"
 	"sort"
+	"strconv"
 	"strings"
 
 	"gosym/smt"
@@ -74,11 +75,25 @@ func (fr *frame) fsStep(op, path string, fallible bool) bool {
 	r := fr.run()
 	fs := r.FS()
 	fs.ops++
-	if len(fs.opLog) < 200 {
-		fs.opLog = append(fs.opLog, op+" "+path)
-	}
 	if r.flags["fsVisible"] != 0 {
 		fr.sched().yieldPoint(fr.g, op)
+	}
+	if len(fs.opLog) < 400 {
+		// logged when the operation actually executes (after a possible preemption)
+		pid := int64(0)
+		if fr.g != nil {
+			pid = fr.g.pid
+		}
+		entry := fmt.Sprintf("%d %s %s", pid, op, path)
+		if op == "remove" {
+			// record what the removed file contained (who owned it)
+			if d, _, e := fr.fsResolve(path, false); d != nil && e != nil && e.node.kind == nFile {
+				if c, ok := normStr(e.node.content).(string); ok {
+					entry += " content=" + strconv.Quote(c)
+				}
+			}
+		}
+		fs.opLog = append(fs.opLog, entry)
 	}
 	if fr.g != nil && fr.g.crashArmed > 0 && (r.flags["crashBudgetSet"] == 0 || r.flags["crashBudget"] > 0) {
 		if r.choose(2) == 1 {
